@@ -36,9 +36,14 @@ type odtPkg struct {
 func odtStyleFor(p *lpara, auto, named map[string]bool) string {
 	L := strconv.Itoa(p.styleLevel())
 	s := ""
-	switch p.Kind {
+	kind, via := p.Kind, p.Via
+	if p.Kind == "p" && p.HStyle != "" {
+		// a plain paragraph written in the style a heading of that Via / level would use
+		kind, via = "h", p.HStyle
+	}
+	switch kind {
 	case "h":
-		switch p.Via {
+		switch via {
 		case "builtin":
 			s = "Heading_20_" + L
 			named[s] = true
@@ -273,7 +278,14 @@ func odtPara(p *lpara, auto, named map[string]bool) *Node {
 		n.A("text:style-name", s)
 	}
 	if p.Kind == "h" {
-		n.A("text:outline-level", strconv.Itoa(p.Level))
+		switch {
+		case p.RawOutline == "omit":
+			// no text:outline-level at all
+		case p.RawOutline != "" || p.NoOwnLevel:
+			n.A("text:outline-level", p.RawOutline)
+		default:
+			n.A("text:outline-level", strconv.Itoa(p.Level))
+		}
 	}
 	return n
 }
